@@ -58,8 +58,27 @@ func (it *Interp) storeRangeIterator(v *StoreView, start, end *StrV, reverse boo
 	for i, k := range keys {
 		rel := k
 		if v.prefix != nil {
-			if !isPlainB(k) || !isPlainB(v.prefix) {
-				it.fail("prefix iteration needs structured keys")
+			if !isPlainB(v.prefix) {
+				it.fail("prefix iteration needs a structured prefix")
+			}
+			if !isPlainB(k) {
+				// an opaque key whose leading bytes are known from its construction (format literals, literal operands)
+				pre, _ := v.prefix.concreteString()
+				kp, complete := it.knownPrefix(it.toA(k))
+				n := len(pre)
+				if len(kp) < n {
+					n = len(kp)
+				}
+				if kp[:n] != pre[:n] {
+					continue // provably outside the iterated prefix
+				}
+				if len(kp) >= len(pre) || complete {
+					if len(kp) < len(pre) {
+						continue
+					}
+					it.fail("iteration over an opaque key inside the iterated prefix is not encodable: %s", it.describe(k))
+				}
+				it.fail("prefix iteration: cannot decide whether opaque key %s has prefix %q", it.describe(k), pre)
 			}
 			if !it.p.branch(it.strHasPrefix(k, v.prefix)) {
 				continue
@@ -152,4 +171,62 @@ func (it *Interp) iterMethod(n *Native, name string, a []Val) Val {
 	}
 	it.fail("iterator method %s", name)
 	return nil
+}
+
+
+// knownPrefix returns the leading bytes of an opaque string term that are fixed by its construction, and whether
+// that is the whole string.
+func (it *Interp) knownPrefix(t *Term) (string, bool) {
+	if t.op == "var" {
+		if v, ok := it.p.litVal[t.name]; ok {
+			return v, true
+		}
+		return "", false
+	}
+	if t.op != "app" {
+		return "", false
+	}
+	if t.name == "concat" {
+		a, ca := it.knownPrefix(t.args[0])
+		if !ca {
+			return a, false
+		}
+		b, cb := it.knownPrefix(t.args[1])
+		return a + b, cb
+	}
+	if format, ok := it.p.fmtNames[t.name]; ok {
+		out := ""
+		ai := 0
+		i := 0
+		for i < len(format) {
+			c := format[i]
+			if c != '%' {
+				out += string(c)
+				i++
+				continue
+			}
+			if i+1 < len(format) && format[i+1] == '%' {
+				out += "%"
+				i += 2
+				continue
+			}
+			// a verb: known only if its operand is fully known
+			if ai >= len(t.args) {
+				return out, false
+			}
+			arg := t.args[ai]
+			ai++
+			if arg.sort != SStr {
+				return out, false
+			}
+			s, complete := it.knownPrefix(arg)
+			out += s
+			if !complete {
+				return out, false
+			}
+			i += 2
+		}
+		return out, true
+	}
+	return "", false
 }
